@@ -650,6 +650,18 @@ fn check_level(
                     ));
                 }
                 prev_rel = x.rel;
+                // one thread-local pass per dispatch: it is over before the next dispatch of the
+                // same dispatcher (the next inner dispatch of a batch) starts its systems
+                if tl_n == mult && ej + 1 < mult && n > 0 {
+                    let next_start = (0..n).map(|i| wins[i][ej + 1].enter).min().unwrap_or(usize::MAX);
+                    if !(x.rel < next_start) {
+                        out.push(Finding::new(
+                            &with_c07("C12", inner),
+                            "tl_after_next_dispatch_started",
+                            format!("{}: thread-local u{} of dispatch {} ended at ts {}, after the systems of dispatch {} had started (ts {})", path, t.uid, ej, x.rel, ej + 1, next_start),
+                        ));
+                    }
+                }
                 if x.thread != opts.caller_thread {
                     if inner {
                         // which thread ran the controller (i.e. called the inner dispatch)?
